@@ -42,6 +42,27 @@ def rotate_scene(scene, k):
     return out
 
 
+def interleaved_cores_case(rng):
+    """ a ring with two protoclusters of different rules whose cores interleave (x1 y1 x2 [y2]), a third one further on,
+        and the origins that fall into and between the genes of the interleaved cores """
+    length = rng.choice([41, 60])
+    at = rng.randrange(0, length)
+    leaf = c03._leaf  # pylint: disable=protected-access
+    layout = [(0, "a"), (2, "b"), (4, "a")] + ([(6, "b")] if rng.random() < 0.5 else []) + [(rng.randrange(14, 20), "c")]
+    locs, hits = [], []
+    for offset, profile in layout:
+        strand = rng.choice([1, -1])
+        locs.append(rotate_loc({"parts": [[0, 1]], "strand": strand}, (at + offset) % length, length))
+        hits.append([{"p": profile, "s": 60}])
+    order = sorted(range(len(locs)), key=lambda i: (min(p[0] for p in locs[i]["parts"]), locs[i]["parts"]))
+    scene = {"L": length, "circ": True, "cutoff": 0, "locs": [locs[i] for i in order], "hits": [hits[i] for i in order]}
+    rules = [{"name": "r1", "cutoff": 6, "nbhd": rng.choice([1, 2]), "cond": leaf("a"), "hasExt": False, "ext": leaf("a"), "sup": []},
+             {"name": "r2", "cutoff": 5, "nbhd": rng.choice([1, 2]), "cond": leaf("b"), "hasExt": False, "ext": leaf("a"), "sup": []},
+             {"name": "r3", "cutoff": 2, "nbhd": rng.choice([1, 3]), "cond": leaf("c"), "hasExt": False, "ext": leaf("a"), "sup": []}]
+    ks = sorted({(length - at - cut) % length for cut in range(0, 8)} - {0}) + [rng.randrange(1, length)]
+    return {"scene": scene, "rules": rules, "scale": rng.choice([1, 1000]), "ks": sorted(set(ks)), "orders": [["r3", "r2", "r1"]]}
+
+
 def _run(scene, rules, scale):
     from .. import detect as D
     try:
@@ -210,6 +231,9 @@ def run(ctx):
         orders = [order for order in [names[::-1]] if valid_order(ruleset, order)]
         ks = sorted(rng.sample(range(1, scene["L"]), 6))
         cases.append({"scene": scene, "rules": ruleset, "scale": rng.choice([1, 1000]), "ks": ks, "orders": orders})
+    # cores of two rules interleaving, a third protocluster further on, the origin moved through the interleaved cores
+    for _ in range(40 if ctx.quick else 1000):
+        cases.append(interleaved_cores_case(rng))
     # the shipped rule files: what a rule is does not depend on which other rules were asked for in the same process
     selection_cases = []
     for _ in range(16 if ctx.quick else 200):
